@@ -212,6 +212,105 @@ CASES = [
     ("r04_division", R, POS, "(self.0 * 8 + self.1) as usize", "(self.0 * 16 / 2 + self.1) as usize", "operator `/`"),
 ]
 
+# ---------------------------------------------------------------- rows for the letter functions and the key-table indices
+ASCII_MATCH = """        let piece = match self.piece_type {
+            PieceType::King => 'K',
+            PieceType::Queen => 'Q',
+            PieceType::Rook => 'R',
+            PieceType::Bishop => 'B',
+            PieceType::Knight => 'N',
+            PieceType::Pawn => 'P',
+        };"""
+FROM_MATCH = """        let piece_type = match piece.to_ascii_uppercase() {
+            'K' => PieceType::King,
+            'Q' => PieceType::Queen,
+            'R' => PieceType::Rook,
+            'B' => PieceType::Bishop,
+            'N' => PieceType::Knight,
+            'P' => PieceType::Pawn,
+            _ => return None,
+        };"""
+PGN_MATCH = """            PieceType::King => "K",
+            PieceType::Queen => "Q",
+            PieceType::Rook => "R",
+            PieceType::Bishop => "B",
+            PieceType::Knight => "N",
+            PieceType::Pawn => "","""
+PIECE_HASH = """            *zobrist::PIECE
+                .get_unchecked(pos.as_usize())
+                .get_unchecked(self.as_index())"""
+STATE_HASH = "unsafe { *zobrist::STATE.get_unchecked(self.bitfield as usize) }"
+CASES += [
+    ("h23_ascii_lookup_array", H, PC, ASCII_MATCH, "        let piece = ['Q', 'R', 'B', 'N', 'P', 'K'][self.piece_type as usize];",
+     "`match` -> lookup array indexed by `self.piece_type as usize`"),
+    ("h24_ascii_reorder_bytes", H, PC, ASCII_MATCH, """        let piece = match self.piece_type {
+            PieceType::Pawn => b'P' as char,
+            PieceType::Knight => 'N',
+            PieceType::Bishop => '\\u{42}',
+            PieceType::Rook => 'R',
+            PieceType::Queen => b'Q' as char,
+            PieceType::King => '\\x4B',
+        };""", "arms reordered, `'Q'` -> `b'Q' as char`, `\\u{42}`, `\\x4B`"),
+    ("h25_ascii_black_if", H, PC, """        match self.owner {
+            Player::White => piece,
+            Player::Black => piece.to_ascii_lowercase(),
+        }
+    }""", """        if self.owner == Player::Black { piece.to_ascii_lowercase() } else { piece }
+    }""", "`match` on the owner -> `if/else`"),
+    ("h26_from_lowercase_or", H, PC, FROM_MATCH, """        let piece_type = match piece.to_ascii_lowercase() {
+            'p' => PieceType::Pawn,
+            'n' => PieceType::Knight,
+            'b' => PieceType::Bishop,
+            'r' => PieceType::Rook,
+            'q' => PieceType::Queen,
+            'k' => PieceType::King,
+            _ => { return None; }
+        };""", "match on the lowercase letter, arms reordered, `return` in a block"),
+    ("h27_from_direct_or", H, PC, FROM_MATCH, """        let piece_type = match piece {
+            'K' | 'k' => PieceType::King,
+            'Q' | 'q' => PieceType::Queen,
+            'R' | 'r' => PieceType::Rook,
+            'B' | 'b' => PieceType::Bishop,
+            'N' | 'n' => PieceType::Knight,
+            'P' | 'p' => PieceType::Pawn,
+            _ => return None,
+        };""", "or-patterns on the char itself instead of `to_ascii_uppercase`"),
+    ("h28_pgn_reorder_wild", H, PC, PGN_MATCH, """            PieceType::Queen => "Q",
+            PieceType::Knight => "N",
+            PieceType::Rook => "\\u{52}",
+            PieceType::King => r"K",
+            PieceType::Bishop => "B",
+            _ => "",""", "arms reordered, catch-all, escape and raw string"),
+    ("h29_glyph_escape", H, PC, "PieceType::King => '♔',", "PieceType::King => '\\u{2654}',", "glyph written as `\\u{2654}`"),
+    ("h30_piece_hash_indexing", H, PC, "        unsafe {\n" + PIECE_HASH + "\n        }", "        let row = &zobrist::PIECE[pos.as_usize()];\n        row[self.as_index()]",
+     "`get_unchecked` -> `[]`, `let` for the row, no `unsafe`"),
+    ("h31_state_hash_let", H, GS, STATE_HASH, "let i = self.bitfield as usize;\n        zobrist::STATE[i]", "`get_unchecked` -> `[]`, `let`"),
+    ("h32_new_assert_cmp", H, POS, "        assert!((0..8).contains(&row) && (0..8).contains(&col));", "        assert!(row >= 0 && row < 8 && (0..=7).contains(&col), \"off the board\");",
+     "assertion with comparisons and a message"),
+    ("m26_ascii_n_b", M, PC, "            PieceType::Bishop => 'B',\n            PieceType::Knight => 'N',\n            PieceType::Pawn => 'P',",
+     "            PieceType::Bishop => 'N',\n            PieceType::Knight => 'B',\n            PieceType::Pawn => 'P',", "letters 'N'/'B' swapped in `as_char_ascii`"),
+    ("m27_glyph_colour", M, PC, "PieceType::King => '♔',", "PieceType::King => '♚',", "white king shown with the black glyph"),
+    ("m28_from_k_q", M, PC, "            'K' => PieceType::King,\n            'Q' => PieceType::Queen,", "            'Q' => PieceType::King,\n            'K' => PieceType::Queen,", "'K' <-> 'Q' in `from_char_ascii`"),
+    ("m29_pgn_pawn", M, PC, "PieceType::Pawn => \"\",", "PieceType::Pawn => \"P\",", "pawn gets a PGN letter"),
+    ("m30_from_owner", M, PC, "let owner = if piece.is_ascii_lowercase() {", "let owner = if piece.is_ascii_uppercase() {", "colour test inverted"),
+    ("m31_ascii_no_lower", M, PC, "Player::Black => piece.to_ascii_lowercase(),", "Player::Black => piece.to_ascii_uppercase(),", "black letters not lowered"),
+    ("m32_from_catch_all", M, PC, "            _ => return None,\n        };", "            _ => PieceType::Pawn,\n        };", "unknown letters (also non-ASCII) read as pawns"),
+    ("m33_piece_hash_swapped", M, PC, PIECE_HASH, """            *zobrist::PIECE
+                .get_unchecked(self.as_index())
+                .get_unchecked(pos.as_usize())""", "index order swapped"),
+    ("m34_piece_hash_col", M, PC, PIECE_HASH, """            *zobrist::PIECE
+                .get_unchecked(pos.col() as usize)
+                .get_unchecked(self.as_index())""", "square index replaced by the column"),
+    ("m35_state_hash_shift", M, GS, STATE_HASH, "unsafe { *zobrist::STATE.get_unchecked((self.bitfield >> 1) as usize) }", "state byte shifted before the lookup"),
+    ("m36_piece_hash_type_only", M, PC, PIECE_HASH, """            *zobrist::PIECE
+                .get_unchecked(pos.as_usize())
+                .get_unchecked(self.piece_type as usize)""", "dropped `+ 6` for Black (piece type as the column)"),
+    ("m37_glyph_knight_bishop", M, PC, "PieceType::Bishop => '♝',\n                PieceType::Knight => '♞',", "PieceType::Bishop => '♞',\n                PieceType::Knight => '♝',", "black knight/bishop glyphs swapped"),
+    ("m38_new_assert_range", M, POS, "        assert!((0..8).contains(&row) && (0..8).contains(&col));", "        assert!((0..8).contains(&row) && (0..=8).contains(&col));", "assertion admits column 8"),
+    ("r05_char_range_pattern", R, PC, "            'K' => PieceType::King,\n            'Q'", "            'K'..='K' => PieceType::King,\n            'Q'", "a range pattern"),
+    ("r06_format_macro", R, PC, "PieceType::Pawn => \"\",", "PieceType::Pawn => concat!(\"\", \"\"),", "a macro in expression position"),
+]
+
 
 def sh(cmd, **kw):
     return subprocess.run(cmd, stdout=subprocess.PIPE, stderr=subprocess.STDOUT, text=True, **kw)
@@ -294,6 +393,19 @@ def main():
     ok, out, dt = build()
     final = f"regenerated from {SRC_REPO}: translator rc={r.returncode}, build {'ok' if ok else 'FAILED'} ({dt:.0f} s)"
     print(final)
+    expected = {H: "translator ok, build ok", M: "build fails (or named translator error)", R: "translator error `translate:<file>.<fn>`"}
+    if only and os.environ.get("SELFTEST_APPEND"):
+        with open(os.path.join(HERE, "translate_selftest.md"), "a", encoding="utf-8") as f:
+            n_ok = sum(1 for x in results if x["ok"])
+            f.write(f"## {os.environ['SELFTEST_APPEND']}\n\n{n_ok}/{len(results)} as expected (rows run on their own: "
+                    f"`SELFTEST_APPEND=… tools/translate_selftest.py {' '.join(sys.argv[1:])}`). {final}.\n\n"
+                    "| # | kind | file | rewrite | expected | observed | as expected |\n|---|---|---|---|---|---|---|\n")
+            for x in results:
+                what = x["what"].replace("|", "\\|")
+                obs = x["observed"].replace("|", "\\|")
+                f.write(f"| {x['name']} | {x['kind']} | {os.path.basename(x['file'])} | {what} | {expected[x['kind']]} | "
+                        f"{obs} | {'yes' if x['ok'] else '**NO**'} |\n")
+            f.write("\n")
     if not only:
         expected = {H: "translator ok, build ok", M: "build fails (or named translator error)", R: "translator error `translate:<file>.<fn>`"}
         with open(os.path.join(HERE, "translate_selftest.md"), "w", encoding="utf-8") as f:
